@@ -61,12 +61,14 @@ def a5_linear(prog, rep, chk):
             rets = runner.run_entry(E, chk, [('R', cell, (), False), A.const_int(8 * n)], pre=pre, quiet=True)
             key = 'modes_checksum#%d-bit' % (8 * n)
             oks = []
+            st_ok = None
             for st, v in rets:
                 r = st.resolve(E.expand(v))
                 if r != A.BOT and r[0] == 'E':
                     for vi, fs in r[2]:
                         if vi == 0:
                             oks.append(E.scalar(st, fs[0]))
+                            st_ok = st
                         else:
                             oks.append(None)
             if len(oks) != 1 or oks[0] is None or oks[0][0] != 'I' or oks[0][4] is None:
@@ -94,6 +96,14 @@ def a5_linear(prog, rep, chk):
                         lin(y, depth + 1)
                 elif op in ('Shl', 'Shr') and x[2][0] == 'c':
                     lin(x[1], depth + 1)
+                elif op == 'BitOr':
+                    # an OR of operands that have no bit in common is an XOR
+                    za, zb = E.ival(st_ok, x[1]), E.ival(st_ok, x[2])
+                    disjoint = za is not None and zb is not None and za[0] >= 0 and zb[0] >= 0 and ((~za[2]) & (~zb[2]) & 0xFFFFFFFF) == 0
+                    if not disjoint:
+                        bad.append('or of operands that may share bits')
+                    lin(x[1], depth + 1)
+                    lin(x[2], depth + 1)
                 elif op == 'BitAnd' and (x[2][0] == 'c' or x[1][0] == 'c'):
                     lin(x[1] if x[2][0] == 'c' else x[2], depth + 1)
                 elif op == 'tbl' and x[1][0] == 'c':
